@@ -633,6 +633,32 @@ func (p *Prog) colourName(v ssa.Value, env map[ssa.Value]pv, depth int) string {
 			g = b
 		case *ssa.UnOp: // a slice variable
 			g, _ = b.X.(*ssa.Global)
+		case *ssa.Alloc:
+			// a table local to the function: its element #idx is stored exactly once, with a constant index
+			var elem ssa.Value
+			n := 0
+			for _, r := range *b.Referrers() {
+				ia, ok := r.(*ssa.IndexAddr)
+				if !ok {
+					continue
+				}
+				c, ok := constInt(ia.Index)
+				for _, r2 := range *ia.Referrers() {
+					if st, isSt := r2.(*ssa.Store); isSt && st.Addr == ssa.Value(ia) {
+						if !ok {
+							return "?" // a store at a variable position: the table is not constant
+						}
+						if c == idx.i {
+							elem = st.Val
+							n++
+						}
+					}
+				}
+			}
+			if n == 1 {
+				return p.colourName(elem, env, depth+1)
+			}
+			return "?"
 		}
 		if g == nil {
 			return "?"
